@@ -105,7 +105,8 @@ def check(run, model, tier):
                                     a0 = kw.value
                                 if kw.arg == 'priority':
                                     a1 = kw.value
-                            ok = isinstance(a0, ast.Name) and a0.id == publish.params[1] and isinstance(a1, ast.Name) and a1.id == publish.params[2]
+                            from sa.util import is_param_or_defaulted as _ipd
+                            ok = isinstance(a0, ast.Name) and a0.id == publish.params[1] and a1 is not None and _ipd(a1, publish.params[2], defs)
                             run.inst('CMP.queue-kind', ff, 'put %s' % norm(item), ok,
                                      '' if ok else 'the queued item is not built from the published (event, priority)', node=c, obligation=True)
                     elif isinstance(item, ast.Constant):
